@@ -183,6 +183,8 @@ def build_reader(case, data, tmpdir, cls=AudioReader, record=None):
         if kind == "wav_obj":
             return cls(WaveAudioSource(path), **kw), cleanup
         return cls(path, large_file=(kind == "wav_lazy"), **kw), cleanup
+    if kind in ("live_obj", "app_obj"):
+        return cls(_app_source(kind, data, rate, width, channels), **kw), cleanup
     if kind == "stdin":
         import random
 
@@ -206,6 +208,46 @@ def build_reader(case, data, tmpdir, cls=AudioReader, record=None):
             cleanup_pipe()
             raise
     raise ValueError(kind)
+
+
+def _app_source(kind, data, rate, width, channels):
+    """sources written by an application on the public AudioSource / BufferAudioSource base classes"""
+    from auditok.io import AudioSource
+
+    if kind == "live_obj":
+
+        class LiveSource(AudioSource):
+            """a device-like stream: closing and opening it again does not move it (pause / resume)"""
+
+            def __init__(self):
+                super().__init__(rate, width, channels)
+                self._stream = io.BytesIO(data)
+                self._opened = False
+
+            def is_open(self):
+                return self._opened
+
+            def open(self):
+                self._opened = True
+
+            def close(self):
+                self._opened = False
+
+            def read(self, size):
+                if not self._opened:
+                    raise IOError("stream is closed")
+                return self._stream.read(size * width * channels) or None
+
+        return LiveSource()
+
+    class AppSource(BufferAudioSource):
+        """an application's own source class with its own idea of being rewindable, recording, ..."""
+
+        rewindable = True
+        record = True
+        recording = True
+
+    return AppSource(data, rate, width, channels)
 
 
 def expected_blocks(case, data, reader):
